@@ -29,7 +29,13 @@ CLASSES = [            # (name, [(field, type)]); type in any | int | float | st
     ('D', [('x', 'any'), ('y', 'any')]),      # same fields as A: only the class tells them apart
     ('E', [('u', 'any'), ('w', 'any')]),      # `_on_bound` derives state (`_sig`) from the fields
     ('F', [('a', 'float_ge0'), ('b', 'float_le0'), ('c', 'int_ge0'), ('d', 'int_le0')]),   # bounds exactly 0
+    ('G', [('units', 'any'), ('act', 'any')]),  # pg.symbolize of a regular class: `==` is identity, pg.eq structural
+    ('H', [('x', 'any'), ('y', 'any')]),        # pg.Object with use_symbolic_comparison = False (`==` is identity)
+    ('L', [('xs', 'list_int_max1'), ('ys', 'list_int_min2')]),   # size-constrained list fields
 ]
+SIZES = {'list_int_max1': (0, 1), 'list_int_min2': (2, None)}   # min_size, max_size
+SYMBOLIZED = {6}
+IDENTITY_EQ = {7}
 DERIVED = {4}                                 # classes with `_on_bound`-derived state
 # bounded numeric field types: base type, min_value, max_value
 BOUNDS = {'float_ge0': ('float', 0, None), 'float_le0': ('float', None, 0),
@@ -78,6 +84,35 @@ def bound_slots(t, acc=None):
     for c in t[4]:
       bound_slots(c, acc)
   return acc
+
+
+def size_fits(x, lo, hi):
+  """Every list the (value) template `x` can produce has a length within [lo, hi]."""
+  k = x[0]
+  if k == 'list':
+    n = len(x[1])
+  elif k == 'choice' and not x[2]:
+    n = x[3]
+  elif k == 'choice':
+    return all(size_fits(c, lo, hi) for c in x[4])
+  else:
+    return True
+  return n >= lo and (hi is None or n <= hi)
+
+
+def sizes_ok(t):
+  """No manyof / list bound to a size-constrained list field can produce a list of a forbidden length."""
+  k = t[0]
+  if k == 'obj':
+    for c, (_, fty) in zip(t[3], CLASSES[t[1]][1]):
+      if fty in SIZES and not size_fits(c, *SIZES[fty]):
+        return False
+    return all(sizes_ok(c) for c in t[3])
+  if k in ('dict', 'list'):
+    return all(sizes_ok(c) for c in t[-1])
+  if k == 'choice':
+    return all(sizes_ok(c) for c in t[4])
+  return True
 
 
 def bounds_ok(t):
@@ -163,7 +198,7 @@ def is_active(t, W):
 def prims(t, W):
   """Active top-level placeholders in traversal order (mirror of `_parse_generators`)."""
   k = t[0]
-  if k == 'const':
+  if k in ('const', 'ref'):
     return []
   if k in ('dict', 'list', 'obj'):
     return [p for c in t[-1] for p in prims(c, W)]
@@ -334,6 +369,8 @@ def mutate_dna(d, rng):
 def rand_value(t, W, rng, perturb):
   """A value the template can (probably) encode; with `perturb`, (probably) cannot."""
   k = t[0]
+  if k == 'ref':
+    return t
 
   def hit():
     return perturb and rng.chance(0.15)
@@ -404,6 +441,8 @@ def label_of(t):
 
 def heads(t, W):
   k = t[0]
+  if k == 'ref':
+    return [['any']]
   if k == 'const':
     return [['atom', t[1]]]
   if k in ('dict', 'list', 'obj'):
@@ -422,6 +461,8 @@ def heads(t, W):
 def match_head(t, h, W):
   """Could template `t` encode a value whose head is `h`? (over-approximation)"""
   k = t[0]
+  if k == 'ref':
+    return True
   if k == 'custom':
     return True if is_active(t, W) else h in (['inactive', t[1]], ['any'])
   if h == ['any']:
@@ -455,7 +496,7 @@ def match_head(t, h, W):
 def head_distinct(t, W):
   """No earlier candidate of an active choice matches a head of a later one, recursively."""
   k = t[0]
-  if k in ('const', 'floatv', 'custom'):
+  if k in ('const', 'floatv', 'custom', 'ref'):
     return True
   if k in ('dict', 'list', 'obj'):
     return all(head_distinct(c, W) for c in t[-1])
@@ -474,6 +515,8 @@ def head_distinct(t, W):
 def shape_ok(t, v, W):
   """The shape the template prescribes (mirror of `shapeT`)."""
   k = t[0]
+  if k == 'ref':
+    return not has_ref(v)            # a reference is replaced by the (decoded) value it points to
   if k == 'const':
     return v == t
   if k in ('dict', 'list', 'obj'):
@@ -523,6 +566,17 @@ def in_hook_range_prim(p, W, d):
     if not in_hook_range(prims(cands[sd[0][1]], W), W, norm(None, sd[1])):
       return False
   return True
+
+
+def has_ref(t):
+  k = t[0]
+  if k == 'ref':
+    return True
+  if k in ('dict', 'list', 'obj'):
+    return any(has_ref(c) for c in t[-1])
+  if k == 'choice':
+    return any(has_ref(c) for c in t[4])
+  return False
 
 
 def first_diff(a, b):
@@ -595,6 +649,25 @@ class TmplGen:
       return ['floatv', self.fresh_tag(), of_float(lo + 0.1), of_float(lo + 0.1 + width * 0.7)]
     return ['floatv', self.fresh_tag(), [lo, 0], [lo + width, 0]]
 
+  def sized_list(self, depth, ty):
+    """A (mostly) admissible template for a size-constrained List(Int) field; ~8 % have a manyof whose number
+    of choices does not fit (must be rejected when the template is constructed)."""
+    r = self.rng
+    lo, hi = SIZES[ty]
+    ok_sizes = [n for n in range(0, 4) if n >= lo and (hi is None or n <= hi)]
+    bad_sizes = [n for n in range(1, 4) if n not in ok_sizes]
+    straddle = r.chance(0.08)
+    if depth > 0 and r.chance(0.25):
+      return self.choice(depth, ty, True)
+    ints = lambda n: [self.const('int') for _ in range(n)]
+    sizes = [n for n in (bad_sizes if straddle else ok_sizes) if n >= 1]
+    if depth > 0 and sizes and r.chance(0.6):
+      k = r.choice(sizes)
+      distinct = r.chance(0.5)
+      return ['choice', self.fresh_tag(), False, k, ints(max(k, r.randint(2, 3)) if distinct else r.randint(2, 3)),
+              distinct, r.chance(0.5)]
+    return ['list', ints(r.choice(ok_sizes))]
+
   def bounded(self, depth, ty):
     """A (mostly) admissible template for a numeric field whose bound is exactly zero; ~12 % straddle
     the bound (must be rejected when the template is constructed)."""
@@ -632,7 +705,7 @@ class TmplGen:
     n = r.randint(1, 4) if r.chance(0.15) else r.randint(2, 4)
     cand_ty = ty
     if not one:
-      cand_ty = 'int' if ty == 'list_int' else 'any'
+      cand_ty = 'int' if ty.startswith('list_int') else 'any'
     self.in_choice = getattr(self, 'in_choice', 0) + 1
     cands = [self.gen(depth - 1, cand_ty, in_cand=True) for _ in range(n)]
     self.in_choice -= 1
@@ -654,6 +727,8 @@ class TmplGen:
       ty = 'any'                                   # (probably) ill-typed: binding-time validation
     if ty in BOUNDS:
       return self.bounded(depth, ty)
+    if ty in SIZES:
+      return self.sized_list(depth, ty)
     if ty in ('int', 'str'):
       if depth > 0 and r.chance(0.45):
         return self.choice(depth, ty, True)
@@ -676,7 +751,7 @@ class TmplGen:
     if depth <= 0:
       return self.floatv() if r.chance(0.07) else self.const('any')
     k = r.weighted([(3, 'const'), (3, 'dict'), (2, 'list'), (2, 'A'), (1, 'B'), (1, 'C'), (1, 'D'), (2, 'E'),
-                    (1, 'F'), (5, 'oneof'), (3, 'manyof'), (1, 'floatv'), (2, 'custom')])
+                    (1, 'F'), (2, 'G'), (2, 'H'), (1, 'L'), (5, 'oneof'), (3, 'manyof'), (1, 'floatv'), (2, 'custom')])
     if k == 'const':
       return self.const('any')
     if k == 'custom':
@@ -699,7 +774,7 @@ class TmplGen:
       return ['dict', keys, [self.gen(depth - 1) for _ in keys]]
     if k == 'list':
       return ['list', [self.gen(depth - 1) for _ in range(r.randint(0, 3))]]
-    ci = 'ABCDEF'.index(k)
+    ci = 'ABCDEFGHL'.index(k)
     fields = CLASSES[ci][1]
     return ['obj', ci, [f for f, _ in fields], [self.gen(depth - 1, fty) for _, fty in fields]]
 
@@ -713,7 +788,7 @@ class TmplGen:
     elif k < 6:
       t = ['list', [self.gen(depth) for _ in range(r.randint(1, 3))]]
     elif k < 8:
-      ci = r.below(6)
+      ci = r.below(9)
       fields = CLASSES[ci][1]
       t = ['obj', ci, [f for f, _ in fields], [self.gen(depth, fty) for _, fty in fields]]
     else:
@@ -745,9 +820,9 @@ def custom_in_typed_slot(t, ty='any'):
   if k == 'obj':
     return any(custom_in_typed_slot(c, fty) for c, (_, fty) in zip(t[3], CLASSES[t[1]][1]))
   if k in ('dict', 'list'):
-    return any(custom_in_typed_slot(c, 'int' if ty == 'list_int' and k == 'list' else 'any') for c in t[-1])
+    return any(custom_in_typed_slot(c, 'int' if ty.startswith('list_int') and k == 'list' else 'any') for c in t[-1])
   if k == 'choice':
-    return any(custom_in_typed_slot(c, ty if t[2] else ('int' if ty == 'list_int' else 'any')) for c in t[4])
+    return any(custom_in_typed_slot(c, ty if t[2] else ('int' if ty.startswith('list_int') else 'any')) for c in t[4])
   return False
 
 
@@ -792,7 +867,9 @@ def _setup_pg():
            'float': lambda: pg.typing.Float(), 'str': lambda: pg.typing.Str(),
            'list_int': lambda: pg.typing.List(pg.typing.Int()),
            'float_ge0': lambda: pg.typing.Float(min_value=0.0), 'float_le0': lambda: pg.typing.Float(max_value=0.0),
-           'int_ge0': lambda: pg.typing.Int(min_value=0), 'int_le0': lambda: pg.typing.Int(max_value=0)}
+           'int_ge0': lambda: pg.typing.Int(min_value=0), 'int_le0': lambda: pg.typing.Int(max_value=0),
+           'list_int_max1': lambda: pg.typing.List(pg.typing.Int(), max_size=1),
+           'list_int_min2': lambda: pg.typing.List(pg.typing.Int(), min_size=2)}
   classes = []
   for ci, (name, fields) in enumerate(CLASSES):
     body = {'__module__': 'harness.c13', '__qualname__': 'C13%s' % name}
@@ -801,6 +878,16 @@ def _setup_pg():
         pg.Object._on_bound(self)
         self._sig = derived_sig(self, _fields)        # state derived from the (current) field values
       body['_on_bound'] = _on_bound
+    if ci in SYMBOLIZED:
+      class _Plain:                     # a regular (non-PyGlove) class, e.g. from a third-party library
+        def __init__(self, units, act):
+          self.units = units
+          self.act = act
+      _Plain.__name__ = _Plain.__qualname__ = 'C13Plain%s' % name
+      classes.append(pg.symbolize(_Plain))
+      continue
+    if ci in IDENTITY_EQ:
+      body['use_symbolic_comparison'] = False
     cls = pg.members([(f, specs[ty]()) for f, ty in fields])(type('C13%s' % name, (pg.Object,), body))
     classes.append(cls)
   _PG.update(pg=pg, classes=classes)
@@ -947,6 +1034,35 @@ def stale_derived(v, path=''):
   return out
 
 
+def edit_in_place(x):
+  """Overwrites every leaf it is allowed to overwrite (in place); returns the number of edits."""
+  pg = _setup_pg()['pg']
+  n = 0
+  if isinstance(x, pg.hyper.HyperValue):
+    return 0
+  if isinstance(x, list):
+    items = list(enumerate(x))
+  elif isinstance(x, pg.Symbolic):
+    items = list(x.sym_items())
+  elif isinstance(x, dict):
+    items = list(x.items())
+  else:
+    return 0
+  for k, c in items:
+    if isinstance(c, (pg.Symbolic, list, dict)) and not isinstance(c, pg.hyper.HyperValue):
+      n += edit_in_place(c)
+    else:
+      try:
+        if isinstance(x, pg.Symbolic):
+          x.rebind({k: 'EDITED'}, raise_on_no_change=False)
+        else:
+          x[k] = 'EDITED'
+        n += 1
+      except Exception:          # pylint: disable=broad-except
+        _no_timeout()            # (typed field: the edit is refused)
+  return n
+
+
 def atom_to_py(a):
   if a[0] == 'none':
     return None
@@ -974,6 +1090,8 @@ def to_pg(t, root=True):
     return pg.floatv(to_float(*t[2]), to_float(*t[3]), hints=t[1])
   if k == 'custom':
     return make_custom(t[1], t[2])
+  if k == 'ref':
+    return pg.hyper.reference(t[1])
   _, tag, one, kk, cands, distinct, sorted_ = t
   cs = [to_pg(c, False) for c in cands]
   if one:
@@ -1006,6 +1124,8 @@ def of_pg(v):
             v.choices_distinct, v.choices_sorted]
   if isinstance(v, pg.hyper.Float):
     return ['floatv', v.hints, of_float(v.min_value), of_float(v.max_value)]
+  if isinstance(v, pg.hyper.ValueReference):
+    return ['ref', str(v.reference_paths[0])]
   if isinstance(v, pg.hyper.CustomHyper):
     cid = custom_cid(v)
     if cid is None:
@@ -1161,13 +1281,38 @@ class C13(Prop):
     case['values'] = vals
     return case
 
+  def ref_templates(self, rng):
+    """Templates with `pg.hyper.reference` (derived values; oracle only, not in the Lean model)."""
+    g = TmplGen(rng)
+
+    def c():
+      return g.const(rng.choice(['int', 'str']))
+    one = lambda tag, cands: ['choice', tag, True, 1, cands, True, False]
+    yield one(1, [['dict', ['a', 'b'], [c(), ['ref', 'a']]], c()])
+    yield ['dict', ['z', 'w', 'r'], [one(1, [['dict', ['a', 'b'], [c(), ['ref', 'z.a']]], c()]), c(), ['ref', 'w']]]
+    yield ['dict', ['x', 'y'], [one(1, [c(), c(), c()]), ['ref', 'x']]]
+    yield ['list', [['choice', 1, False, 2, [c(), c(), c()], True, rng.chance(0.5)], ['ref', '[0]']]]
+    yield ['dict', ['a', 'b'], [c(), ['ref', 'a']]]
+    yield one(1, [['obj', 0, ['x', 'y'], [c(), ['ref', 'x']]], ['list', [c(), ['ref', '[0]']]], c()])
+
   def generate(self, rng, tier):
-    n = 260 if tier == 'quick' else 1500
+    n = 220 if tier == 'quick' else 1300
     for i in range(n):
       k = rng.below(100)
       yield self.make_case(rng.fork(), tier, sloppy=(k < 8), ambiguous=(8 <= k < 20))
+    for rep in range(1 if tier == 'quick' else 6):
+      for t in self.ref_templates(rng.fork()):
+        yield {'tmpl': t, 'where': None, 'dnas': 'all', 'bad_dnas': [], 'values': []}
+    # in-place edits of a candidate of an already bound oneof: well-typed ones must keep working
+    for v in (['const', ['int', 7]], ['choice', 9, True, 1, [['const', ['int', 8]], ['const', ['int', 9]]], True, False]):
+      yield {'tmpl': ['obj', 1, ['p', 'q', 'r'], [['choice', 1, True, 1, [['const', ['int', 1]], ['const', ['int', 2]]],
+                                                  True, False], ['const', ['flt', 1, 1]], ['const', ['str', 's']]]],
+             'where': None, 'dnas': 'all', 'bad_dnas': [], 'values': [],
+             'edit': {'path': 'p.candidates[0]', 'value': v}}
 
   def model_request(self, case):
+    if has_ref(case['tmpl']) or case.get('edit'):
+      return None             # references (derived values) / in-place edits of the template: oracle only
     dnas = case['dnas']
     req = {'tmpl': case['tmpl'], 'where': case['where'], 'values': case.get('values', []),
            'stage2_limit': STAGE2_LIMIT, 'slots': bound_slots(case['tmpl'])}
@@ -1197,7 +1342,15 @@ class C13(Prop):
       return {'construct': err_name(e)}
     if custom_in_typed_slot(case['tmpl']):
       return {'construct': 'custom-in-typed-slot'}
-    if of_pg(hv) != case['tmpl'] or int_in_float_slot(case['tmpl']):
+    edited = None
+    if case.get('edit'):
+      # an in-place edit of the (already bound) template before it is used
+      try:
+        hv.rebind({case['edit']['path']: to_pg(case['edit']['value'])})
+      except (TypeError, ValueError, KeyError) as e:
+        return {'construct': 'edit-rejected:' + err_name(e)}
+      edited = of_pg(hv)
+    elif of_pg(hv) != case['tmpl'] or int_in_float_slot(case['tmpl']):
       # a typed field converted a constant (int -> float): the JSON no longer describes the value
       return {'construct': 'coerced'}
     obs = {'unchanged': True, 'notes': []}
@@ -1227,6 +1380,7 @@ class C13(Prop):
       dnas = [dna_to_pg(d) for d in case['dnas']]
       n_all = None
     per = []
+    hist_budget = 2
     for dna in dnas:
       dna = dna.clone(deep=True)     # detached from any spec: what a caller would construct
       rec = {'dna': dna_of_pg(dna)}
@@ -1247,6 +1401,9 @@ class C13(Prop):
         o['fresh_equal'] = bool(pg.eq(v, fresh)) and bool(pg.eq(fresh, v))
         if W is not None:
           rec['stage2'], o['stage2'] = self.stage2(v, rec['dec'][1], case['tmpl'])
+        if rec['valid'] and hist_budget > 0:
+          hist_budget -= 1
+          o['history'] = self.history(t, hv, spec, dna, v, rec['dec'][1], snapshot, before)
         v2 = t.decode(dna)
         o['dec2_equal'] = bool(pg.eq(v, v2)) and of_pg(v2) == rec['dec'][1]
         try:
@@ -1327,6 +1484,8 @@ class C13(Prop):
         _no_timeout()
         obs['iter_error'] = err_name(e)
     obs['n_all'] = n_all
+    if edited is not None:
+      obs['edited_tmpl'] = edited
     if case.get('trace'):
       self._trace_equal = None
       model['trace'] = self.trace(case, where)
@@ -1364,6 +1523,70 @@ class C13(Prop):
       _no_timeout()
       out = {'error': err_name(e)}
     return out
+
+  def history(self, t, hv, spec, dna, v, vj, snapshot, before):
+    """A three-step history on ONE DNA: decode; use the DNA as the parent of `random_dna` / `next_dna` of
+    every custom / evolvable placeholder and edit another decoded value in place; decode again. decode must be
+    a function of (template, DNA), and a decoded value shares no mutable state with the template or with
+    other decoded values."""
+    import random as _random
+    pg = _setup_pg()['pg']
+    problems = []
+
+    def strs(d, acc):
+      if isinstance(d.value, str):
+        acc.append(d.value)
+      for c in d.children:
+        strs(c, acc)
+      return acc
+    genomes = strs(dna, [])
+
+    def placeholders(x, acc):
+      if isinstance(x, pg.hyper.CustomHyper):
+        acc.append(x)
+      if isinstance(x, pg.Symbolic):
+        for _, c in x.sym_items():
+          placeholders(c, acc)
+      return acc
+    for ph in placeholders(hv, []):
+      for call in ([lambda: ph.first_dna()] +
+                   [lambda g=g: ph.random_dna(_random.Random(1), pg.DNA(g)) for g in genomes] +
+                   [lambda g=g: ph.next_dna(pg.DNA(g)) for g in genomes]):
+        try:
+          call()
+        except Exception:        # pylint: disable=broad-except
+          _no_timeout()          # (hooks may refuse foreign genomes)
+    try:
+      pg.random_dna(spec, _random.Random(2), previous_dna=dna.clone(deep=True))
+    except Exception:            # pylint: disable=broad-except
+      _no_timeout()
+    if snapshot() != before:
+      problems.append('template-modified by random_dna / next_dna of its placeholders')
+    if of_pg(v) != vj:
+      problems.append('earlier-result-changed: a value decoded earlier changed when the DNA was used as the parent '
+                      'of random_dna / next_dna')
+    try:
+      if of_pg(t.decode(dna)) != vj:
+        problems.append('decode-not-a-function: decoding the same DNA after random_dna / next_dna gives another value')
+    except Exception as e:       # pylint: disable=broad-except
+      _no_timeout()
+      problems.append('decode-not-a-function: second decode raised %s' % err_name(e))
+    # edit another decoded value in place
+    ve = t.decode(dna)
+    n_edits = edit_in_place(ve)
+    if n_edits:
+      if snapshot() != before:
+        problems.append('template-shared: editing a decoded value in place changed the template')
+      if of_pg(v) != vj:
+        problems.append('results-shared: editing one decoded value in place changed another one')
+      try:
+        if of_pg(t.decode(dna)) != vj:
+          problems.append('decode-not-a-function: decoding the same DNA after an in-place edit of an earlier '
+                          'result gives another value')
+      except Exception as e:     # pylint: disable=broad-except
+        _no_timeout()
+        problems.append('decode-not-a-function: decode after an in-place edit raised %s' % err_name(e))
+    return {'problems': problems, 'edits': n_edits}
 
   def hook_sweep_ok(self, cid):
     """first_dna / next_dna / random_dna of the custom hyper stay within its own genomes, and through the
@@ -1471,10 +1694,27 @@ class C13(Prop):
       return None
     t, W = case['tmpl'], case['where']
     obs, model = out['obs'], out['model']
+    if 'edited_tmpl' in obs:
+      t = obs['edited_tmpl']
+      bad = [r for r, o in zip(model['dnas'], obs['per_dna']) if r['valid'] and r['dec'][0] != 'ok']
+      if bad:
+        return {'signature': 'edit-not-revalidated',
+                'what': 'the edit %s of the bound template was accepted, but valid DNA %s of the edited template '
+                        'is not decoded' % (json.dumps(case['edit']), json.dumps(bad[0]['dna']))}
+    if not sizes_ok(t):
+      return {'signature': 'list-size-placeholder-accepted',
+              'what': 'a manyof / list whose length cannot fit the size-constrained List field it is bound to was '
+                      'accepted at construction (every valid DNA then fails to decode on rebind)'}
     if not bounds_ok(t):
       return {'signature': 'out-of-range-placeholder-accepted',
               'what': 'a placeholder / constant whose values exceed the bounds of the field it is bound to was '
                       'accepted at construction (some valid DNA then decodes to a value the field spec rejects)'}
+    for rec, o in zip(model['dnas'], obs['per_dna']):
+      hp = (o.get('history') or {}).get('problems') or []
+      shared = [x for x in hp if x.startswith(('template-shared', 'results-shared'))]
+      if shared:
+        return {'signature': 'history:' + shared[0].split(':')[0],
+                'what': 'decode(%s), then %s' % (json.dumps(rec['dna']), '; '.join(shared))}
     if not obs['unchanged']:
       return {'signature': 'template-modified', 'what': '; '.join(obs['notes'][:3])}
     if not obs.get('hook_sweeps_ok', True):
@@ -1496,6 +1736,8 @@ class C13(Prop):
         return {'signature': 'decode-fails-on-valid-dna:' + o.get('dec_error', '?'),
                 'what': 'valid DNA %s is not decoded: %s' % (d, o.get('dec_error'))}
       v = rec['dec'][1]
+      if has_ref(v):
+        return {'signature': 'reference-left', 'what': 'decode(%s) still contains an unresolved reference' % d}
       left = placeholders_left(v, W)
       if left or (W is None and not o['deterministic']):
         return {'signature': 'placeholder-left', 'what': 'decode(%s) still contains placeholders %s' % (d, left)}
@@ -1511,6 +1753,10 @@ class C13(Prop):
       if not o['fresh_equal']:
         return {'signature': 'decoded-differs-from-fresh-object',
                 'what': 'decode(%s) is not pg.eq to the same value constructed from scratch' % d}
+      if o.get('history') and o['history']['problems']:
+        p0 = o['history']['problems'][0]
+        return {'signature': 'history:' + p0.split(':')[0].split(' ')[0],
+                'what': 'decode(%s), then %s' % (d, '; '.join(o['history']['problems'][:3]))}
       if o.get('stage2') and o['stage2']['problems']:
         p0 = o['stage2']['problems'][0]
         return {'signature': 'two-stage:' + p0.split(':')[0].split(' ')[0],
@@ -1561,8 +1807,14 @@ class C13(Prop):
       h.append('has:' + k)
     h.append('where:' + ('none' if W is None else 'subset'))
     h.append('dnas:' + ('all' if case['dnas'] == 'all' else 'sampled'))
+    if has_ref(t):
+      h.append('has:reference(oracle-only)')
+    if case.get('edit'):
+      h.append('template-edited-in-place(oracle-only)')
     if not bounds_ok(t):
       h.append('straddles-zero-bound')
+    if not sizes_ok(t):
+      h.append('list-size-misfit')
     h.append('head-distinct:%s' % head_distinct(t, W))
     for name, kinds in (out.get('obs', {}).get('hook_violations') or {}).items():
       h.append('HYPOTHESIS-VIOLATING hooks %s: %s' % (name, ','.join(kinds)))
@@ -1574,6 +1826,10 @@ class C13(Prop):
                         else '<=100' if m['size'] <= 100 else '>100'))
     if 'trace' in m:
       h.append('dynamic-evaluation-traced')
+    if any(o.get('history') and o['history']['edits'] for o in out['obs']['per_dna']):
+      h.append('three-step-history(with in-place edit)')
+    elif any(o.get('history') for o in out['obs']['per_dna']):
+      h.append('three-step-history')
     if any(r.get('stage2') and r['stage2']['decs'] for r in m['dnas']):
       h.append('two-stage-decoded')
     if any(r.get('stage2') and r['stage2']['spec'] != ['space', []] for r in m['dnas']):
@@ -1603,6 +1859,8 @@ class C13(Prop):
 
   def shrink_candidates(self, case):
     t = case['tmpl']
+    if has_ref(t) or case.get('edit'):
+      return
 
     def variants(t):
       k = t[0]
